@@ -10,6 +10,7 @@ import (
 	"go.mongodb.org/mongo-driver/bson"
 	"go.mongodb.org/mongo-driver/bson/primitive"
 	"go.mongodb.org/mongo-driver/mongo"
+	"go.mongodb.org/mongo-driver/mongo/options"
 
 	"github.com/256dpi/lungo"
 	"github.com/256dpi/lungo/bsonkit"
@@ -225,7 +226,7 @@ func c08Alphabet() []e1.Call {
 	var calls []e1.Call
 	add := func(c e1.Call) { calls = append(calls, c) }
 	i := func(v int) int32 { return int32(v) }
-	d1 := bD("_id", i(1), "n", i(1), "s", "x", "arr", bson.A{i(1), i(2), i(3)}, "sub", bD("k", i(1), "l", bson.A{bD("x", i(1), "y", i(1)), bD("x", i(2), "y", i(2))}))
+	d1 := bD("_id", i(1), "n", i(1), "s", "x", "nul", nil, "arr", bson.A{i(1), i(2), i(3)}, "sub", bD("k", i(1), "l", bson.A{bD("x", i(1), "y", i(1)), bD("x", i(2), "y", i(2))}))
 	d2 := bD("_id", i(2), "n", i(5), "arr", bson.A{i(3)})
 	add(cInsertOne("d", "c", d1))
 	add(cInsertOne("d", "c", d2))
@@ -238,6 +239,7 @@ func c08Alphabet() []e1.Call {
 	upd(bD("$set", bD("n", i(1))))                                    // no-op
 	upd(bD("$set", bD("n", i(2), "sub.k", i(2), "fresh.deep", i(1)))) // nested + new parents
 	upd(bD("$unset", bD("s", "", "sub.k", "", "nope", "")))           // removal incl. missing
+	upd(bD("$unset", bD("nul", "")))                                  // removal of a field that holds null
 	upd(bD("$rename", bD("s", "t")))
 	upd(bD("$inc", bD("n", i(1)), "$mul", bD("sub.k", i(3))))
 	upd(bD("$min", bD("n", i(0)), "$max", bD("sub.k", i(0)))) // one changes, one does not
@@ -298,7 +300,9 @@ func c08Alphabet() []e1.Call {
 					mongo.NewInsertOneModel().SetDocument(bD("_id", "t2")),
 					mongo.NewUpdateOneModel().SetFilter(bD("_id", i(1))).SetUpdate(bD("$inc", bD("n", i(100)))),
 				})
-				res = append(res, world.ErrClass(e1), world.ErrClass(e2), world.ErrClass(e3), world.ErrClass(e4))
+				// a statement that fails after its write (the projection is rejected): no event of it may be committed
+				e5 := w.C("d", "c").FindOneAndUpdate(sc, bD("_id", i(1)), bD("$inc", bD("n", i(1000))), options.FindOneAndUpdate().SetProjection(bD("n", i(1), "s", i(0)))).Err()
+				res = append(res, world.ErrClass(e1), world.ErrClass(e2), world.ErrClass(e3), world.ErrClass(e4), world.ErrClass(e5))
 				return nil
 			})
 			if commit {
@@ -455,6 +459,14 @@ func init() {
 				failed := obs == "err" || obs == "dup"
 				if failed {
 					atomic.AddInt64(&failedCalls, 1)
+				}
+				// the statement that fails inside the session transactions adds 1000 to n: no event may carry its effect
+				if strings.HasPrefix(e1.Names(alpha, path)[len(path)-1], "txn{") {
+					for _, ev := range after.events[len(before.events):] {
+						if n, ok := refmodel.GetPath(ev, "fullDocument.n").(int32); ok && n >= 1000 {
+							r.Violation("event-for-failed-statement", fmt.Sprintf("the change log holds an event with the effect of the statement that failed inside %s: %s", e1.Names(alpha, path)[len(path)-1], J(ev)), map[string]interface{}{"calls": e1.Names(alpha, path)})
+						}
+					}
 				}
 				if len(after.events) == len(before.events) {
 					atomic.AddInt64(&noopCalls, 1)
